@@ -121,6 +121,34 @@ def gen_tight(rng):
                 placements=pl, kind="valid", style="tight-ends")
 
 
+def gen_brim(rng):
+    """Chips filled into their last partial alignment block, then zero-size (and small) requests: the
+    boundary where an aligned start can fall beyond the end of the chip's range."""
+    a = rng.choice([2, 3, 4, 8])
+    cap = rng.choice([a * k + r for k in (1, 2, 3, 5) for r in range(1, a)])
+    chips = [(0, 0), (1, 0)][:rng.randint(1, 2)]
+    cons = [["align", 0, a]]
+    if rng.random() < 0.4:
+        s0 = rng.randint(0, cap)
+        cons.append(["reserve", 0, s0, min(cap, s0 + rng.randint(0, 2)), rng.choice([None, [0, 0]])])
+    vres, pl, vid = [], [], 0
+    for c in chips:
+        last_block = (cap // a) * a
+        fill = rng.randint(max(0, last_block - a), cap)         # ends at or inside the last partial block
+        sizes = []
+        while fill > 0:
+            q = min(fill, rng.randint(1, a + 1))
+            sizes.append(q)
+            fill -= q
+        sizes += [rng.choice([0, 0, 1]) for _ in range(rng.randint(1, 3))]
+        for q in sizes:
+            vid += 1
+            vres.append([vid, [[0, q]]])
+            pl.append([vid, list(c)])
+    return dict(machine=dict(w=2, h=1, res=[[0, cap]], exc=[], dead=[]), vres=vres, constraints=cons,
+                placements=pl, kind="valid", style="brim")
+
+
 # ------------------------------------------------------------------ Coq literals
 def coq_case(c):
     m = c["machine"]
@@ -255,8 +283,8 @@ def run(chk, args):
         cases += [b["replay"]["case"] for b in json.load(open(args.replay)).get("no_longer_checks", []) if "case" in b.get("replay", {})]
     else:
         n = 600 if chk.tier == "quick" else 20000
-        cases = [gen_tight(chk.rng) if i % 4 == 1 else gen_case(chk.rng, malformed=(i % 8 == 7))
-                 for i in range(n)]
+        cases = [gen_tight(chk.rng) if i % 4 == 1 else gen_brim(chk.rng) if i % 8 == 2
+                 else gen_case(chk.rng, malformed=(i % 8 == 7)) for i in range(n)]
     corpus = lib.os.path.join(lib.VERIF, "corpus", "C05.json")
     if lib.os.path.exists(corpus):
         cases = json.load(open(corpus)) + cases
